@@ -247,6 +247,44 @@ pub fn write_vec<const N: usize, Ns>(mappings: &Mappings<N, Ns>) -> Result<Vec<u
 	Ok(vec)
 }
 
+/// A namespace, name or descriptor is written as it is, as one tab separated field of a line.
+///
+/// This refuses the ones that would not be read back as they are: a tab would end the field, a line feed
+/// would end the line, and a carriage return at the end gets dropped with the line end if the field is
+/// the last one of its line.
+fn check_field(field: &JavaStr) -> Result<()> {
+	if field.contains('\t') || field.contains('\n') || field.ends_with('\r') {
+		bail!("cannot write {field:?} as a field of a tiny v2 line: it contains a tab or a line feed, or ends with a carriage return");
+	}
+	Ok(())
+}
+
+fn check_names<const N: usize, T: AsRef<JavaStr>>(names: &Names<N, T>) -> Result<()> {
+	names.names().iter().flatten().try_for_each(|name| check_field(name.as_ref()))
+}
+
+/// Checks that every namespace, name and descriptor can be written, before anything is written.
+fn check_fields<const N: usize, Ns>(mappings: &Mappings<N, Ns>) -> Result<()> {
+	for namespace in mappings.info.namespaces.names() {
+		check_field(JavaStr::from_str(namespace))?;
+	}
+	for class in mappings.classes.values() {
+		check_names(&class.info.names)?;
+		for field in class.fields.values() {
+			check_field(field.info.desc.as_inner())?;
+			check_names(&field.info.names)?;
+		}
+		for method in class.methods.values() {
+			check_field(method.info.desc.as_inner())?;
+			check_names(&method.info.names)?;
+			for parameter in method.parameters.values() {
+				check_names(&parameter.info.names)?;
+			}
+		}
+	}
+	Ok(())
+}
+
 fn write_namespaces<const N: usize, Ns>(w: &mut impl Write, namespaces: &Namespaces<N, Ns>) -> Result<()> {
 	for namespace in namespaces.names() {
 		write!(w, "\t{namespace}")?;
@@ -327,6 +365,8 @@ fn write_names<const N: usize>(w: &mut impl Write, names: &Names<N, impl Display
 /// Note that there are also the helper methods [`write_vec`] for writing into a `Vec<u8>` directly,
 /// and the helper method [`write_string`] that also tries to convert that `Vec<u8>` into a `String`.
 pub fn write<const N: usize, Ns>(mappings: &Mappings<N, Ns>, w: &mut impl Write) -> Result<()> {
+	check_fields(mappings).context("mappings cannot be written in the tiny v2 format")?;
+
 	// the buffering makes it much faster
 	let mut w = BufWriter::new(w);
 	let w = &mut w;
